@@ -485,6 +485,7 @@ class KindFlow(MustFlow):
             return
         if isinstance(node, (ast.For, ast.AsyncFor)):
             self.walk_expr(node.iter, st)
+            self.on_expr(node, st, self)
             return
         if isinstance(node, (ast.With, ast.AsyncWith)):
             for item in node.items:
